@@ -408,6 +408,22 @@ func (in *Interp) intrinsic(fn *ssa.Function, args []Value) (Value, bool) {
 			return nil
 		}}
 		return Tuple{Iface{t: ctxNamedType, v: c}, cancel}, true
+	case "context.WithTimeout", "context.WithDeadline":
+		// child context whose deadline is a recorded timer the harness can fire
+		in.stub(name)
+		par, _ := args[0].(Iface).v.(*Ctx)
+		c := newCtx(par)
+		cancel := &NativeFn{name: "cancel", f: func(in *Interp, _ []Value) Value {
+			c.cancelled = true
+			return nil
+		}}
+		d, ok := args[1].(*Term)
+		if !ok {
+			d = C(64, 0)
+		}
+		var cell Value = Struct{}
+		in.afterFuncs = append(in.afterFuncs, &afterFunc{d: d, f: cancel, ptr: &cell})
+		return Tuple{Iface{t: ctxNamedType, v: c}, cancel}, true
 	case "(*sync.Mutex).Lock":
 		in.lock(args[0].(*Value), true, "")
 		return nil, true
